@@ -57,6 +57,12 @@ func configs08(tier string) []xplore.Config {
 	for _, st := range []string{"never", "permanent"} {
 		out = append(out, xplore.Config{Name: fmt.Sprintf("A stall=%s | B normal | C subscribes while W=upd a/b;upd a/b;upd a/b", st), Bound: bound + 1, Data: cfg08{stall: st, script: scripts[1], late: true}})
 	}
+	// the same with notifications that carry SEVERAL paths (atomic groups): the
+	// feed matches every path of one notification against the subscriptions while
+	// a subscriber registers (or a timed-out one is removed)
+	for _, st := range []string{"never", "permanent"} {
+		out = append(out, xplore.Config{Name: fmt.Sprintf("A stall=%s | B normal | C subscribes while W=atomic a/k;upd a/b;atomic a/k", st), Bound: bound + 1, Data: cfg08{stall: st, script: []wop{{"atomic", "a/k"}, {"upd", "a/b"}, {"atomic", "a/k"}}, late: true}})
+	}
 	// the send time-out ends a stalled subscription in every mode
 	for _, md := range []pb.SubscriptionList_Mode{pb.SubscriptionList_ONCE, pb.SubscriptionList_POLL} {
 		out = append(out, xplore.Config{Name: fmt.Sprintf("A mode=%v stall=permanent | B normal | W=upd a/b;upd a/b;upd a/b", md), Bound: bound, Data: cfg08{stall: "permanent", script: scripts[1], amode: md}})
@@ -267,7 +273,7 @@ func run08(cfg xplore.Config, ch vrt.Chooser, trace bool) (xplore.Outcome, *vrt.
 			dels := 0
 			for _, o := range d.script {
 				switch o.kind {
-				case "upd":
+				case "upd", "atomic": // an atomic group is one pending entry
 					leaves[o.path] = true
 				case "del":
 					dels += 2 // at most the leaves below it
